@@ -56,7 +56,23 @@ def main():
         if a.replay:
             spec = json.load(open(a.replay))
             R.replay_key = spec.get("finding", {}).get("key")
-        explanation = mod.run(repo, R)
+        try:
+            explanation = mod.run(repo, R)
+        except AnalysisError as e:
+            # a rule instance that was already decided as violated stays a violation when a later part of the analysis
+            # meets a construct it does not model; without findings the run is analysis-broken (exit 2)
+            if not R.findings:
+                raise
+            print(f"ANALYSIS-INCOMPLETE property={pid} {e}")
+            R.extra["analysis_incomplete"] = str(e)
+            explanation = "incomplete run: " + str(e)
+        except Exception:
+            if not R.findings:
+                raise
+            tb = traceback.format_exc()
+            print(f"ANALYSIS-INCOMPLETE property={pid} internal error\n{tb}")
+            R.extra["analysis_incomplete"] = "internal error"
+            explanation = "incomplete run: internal error"
         R.no_evidence = a.no_evidence
         if a.tier == "thorough" and not a.no_evidence and not a.replay and not R.findings and not os.environ.get("GBSA_NO_SELFTEST"):
             selftest(pid, repo.root, R)
